@@ -156,6 +156,8 @@ def map_val(v, f):
         _, idx, sel, d, sels = v
         return ("enum", idx, sel if is_int(sel) else f(sel), {i: map_val(x, f) for i, x in d.items()},
                 sels)
+    if k == "guarantee":
+        return v
     if k == "opaque":
         return ("opaque", [c if (c is None or isinstance(c, Ptr) or is_int(c)) else f(c)
                            for c in v[1]])
@@ -168,6 +170,10 @@ def outcomes_equal(o1, o2):
 
 
 # ---------------------------------------------------------------------- model -> runner args
+class NotReplayable(Exception):
+    """The runner API cannot pass this argument (pointers)."""
+
+
 def spec_args(spec, model):
     """Flatten an input spec into the runner's argument list under a model."""
     k = spec[0]
@@ -177,6 +183,8 @@ def spec_args(spec, model):
         return [str(_ev(model, c)) for c in spec[1]]
     if k in ("implicit", "none", "gas"):
         return []
+    if k == "unreplayable":
+        raise NotReplayable()
     if k == "seq":
         out = []
         for s in spec[1]:
